@@ -5,6 +5,7 @@
   Everything about the cycle split is proved for an arbitrary id type and an arbitrary junction predicate.
 -/
 import ForsysModel.Model.BigEdges
+import ForsysModel.Model.Construct
 import ForsysModel.Proofs.C08
 
 namespace Forsys
@@ -167,6 +168,87 @@ theorem tensionRows_eq_internal (m : Mesh) (earr : List (List Id)) (hn : earr.No
   unfold Mesh.bigEdgeExternal
   simp only [hdef, List.contains_eq_mem, h]
   cases m.isBorder (earr.getD i []) <;> cases m.endJunction3 (earr.getD i []) <;> simp
+
+/-! ### `BigEdge.own_cells` (clause "an internal interface's own_cells are exactly the two cells on its sides")
+
+    The code reads the cells off one vertex: the middle vertex `e[(len − 1) / 2]` for interfaces with three or more
+    vertices, the intersection of the two ends' cell lists for two-point interfaces.  That the middle vertex — an
+    interior point of the interface, not a junction — lies in at most two cells is the planarity fact; it is the one
+    explicit hypothesis `hmid` below (decidable on every concrete mesh, and checked per run by the oracle). -/
+
+/-- the vertex the code looks at is an interior point of the interface: neither its first nor its last vertex -/
+theorem middle_index_interior (n : Nat) (h : 3 ≤ n) : 0 < (n - 1) / 2 ∧ (n - 1) / 2 < n - 1 := by omega
+
+/-- C08, own_cells clause, interfaces with an interior point: for every mesh and every interface `e` with at least
+    three vertices all of whose vertices lie in at least two cells (the first half of "internal", see `internal_iff`),
+    if the middle vertex lies in at most two cells (`hmid`, planarity) then `own_cells` has exactly two elements and
+    is the cell list of that middle vertex -/
+theorem ownCells_two_of_interior_point (m : Mesh) (e : List Id) (hlen : 3 ≤ e.length)
+    (hint : ∀ v ∈ e, 2 ≤ (m.ownCells v).length)
+    (hmid : (m.ownCells (e[(e.length - 1) / 2]'(by omega))).length ≤ 2) :
+    (m.bigEdgeOwnCells e).length = 2 ∧
+      m.bigEdgeOwnCells e = m.ownCells (e[(e.length - 1) / 2]'(by omega)) := by
+  have hi : (e.length - 1) / 2 < e.length := by omega
+  have hE := m.bigEdgeOwnCells_mid e (by omega) hi
+  refine ⟨?_, hE⟩
+  rw [hE]
+  have := hint _ (List.getElem_mem hi)
+  omega
+
+/-- the same for position `i` of `Frame.internal_big_edges`: the classification of the code supplies `hint` -/
+theorem ownCells_two_of_internal_interior_point (m : Mesh) (earr : List (List Id)) (hn : earr.Nodup)
+    (i : Nat) (hi : i < earr.length) (hint : i ∈ m.internalIdx earr) (hlen : 3 ≤ earr[i].length)
+    (hmid : (m.ownCells (earr[i][(earr[i].length - 1) / 2]'(by omega))).length ≤ 2) :
+    (m.bigEdgeOwnCells earr[i]).length = 2 ∧
+      m.bigEdgeOwnCells earr[i] = m.ownCells (earr[i][(earr[i].length - 1) / 2]'(by omega)) := by
+  have h := ((internal_iff m earr hn i hi).1 hint).1
+  have e : earr.getD i [] = earr[i] := by simp [List.getD_eq_getElem?_getD, hi]
+  rw [e] at h
+  exact ownCells_two_of_interior_point m earr[i] hlen h hmid
+
+/-- C08, own_cells clause, two-point interfaces, as what the code computes: the cells common to both end vertices
+    (in the order of the first end's list).  Nothing forces this list to have two elements, see the witness below. -/
+theorem ownCells_two_point (m : Mesh) (a b : Id) :
+    m.bigEdgeOwnCells [a, b] = listInter (m.ownCells a) (m.ownCells b) := rfl
+
+/-- two cells (1 above, 2 below) separated by the bent interface `1 – 2 – 3`, closed on the left by cell 3 and on the
+    right by cell 4; vertices 1 and 3 are junctions of three cells, vertex 2 is the interior point of the interface -/
+def bentInterface : Mesh :=
+  Mesh.ofLists
+    [(1, 0, 0), (2, 1, 1), (3, 2, 0), (6, 0, 2), (7, 2, 2), (8, 0, -2), (9, 2, -2), (10, -2, 0), (11, 4, 0)]
+    [(1, 1, 2), (2, 2, 3), (3, 3, 7), (4, 7, 6), (5, 6, 1), (6, 1, 8), (7, 8, 9), (8, 9, 3), (9, 6, 10), (10, 10, 8),
+     (11, 9, 11), (12, 11, 7)]
+    [(1, [1, 2, 3, 7, 6]), (2, [1, 8, 9, 3, 2]), (3, [1, 6, 10, 8]), (4, [3, 9, 11, 7])]
+
+/-- the hypotheses of `ownCells_two_of_interior_point` / `ownCells_two_of_internal_interior_point` are satisfiable:
+    interface 0 of `bentInterface` is `1 – 2 – 3`, internal, and its middle vertex 2 lies in the cells 1 and 2 -/
+example : bentInterface.Consistent = true ∧ bentInterface.bigEdgesList[0]? = some [1, 2, 3] ∧
+    0 ∈ bentInterface.internalIdx bentInterface.bigEdgesList ∧
+    (∀ v ∈ ([1, 2, 3] : List Id), 2 ≤ (bentInterface.ownCells v).length) ∧
+    bentInterface.ownCells 2 = [1, 2] := by decide +kernel
+example : (bentInterface.bigEdgeOwnCells [1, 2, 3]).length = 2 ∧
+    bentInterface.bigEdgeOwnCells [1, 2, 3] = bentInterface.ownCells 2 :=
+  ownCells_two_of_interior_point bentInterface [1, 2, 3] (by decide) (by decide +kernel) (by decide +kernel)
+
+/-- 3×3 square lattice on the vertices `4·row + column` (rows, columns 0…3) without its central cell
+    `[5, 6, 10, 9]`; cell `k` has the corners `k, k+1, k+5, k+4` -/
+def holeLattice : Mesh :=
+  Mesh.ofLists
+    [(0, 0, 0), (1, 1, 0), (2, 2, 0), (3, 3, 0), (4, 0, 1), (5, 1, 1), (6, 2, 1), (7, 3, 1), (8, 0, 2), (9, 1, 2), (10, 2, 2), (11, 3, 2), (12, 0, 3), (13, 1, 3), (14, 2, 3), (15, 3, 3)]
+    [(0, 0, 1), (1, 1, 2), (2, 2, 3), (4, 4, 5), (5, 5, 6), (6, 6, 7), (8, 8, 9), (9, 9, 10), (10, 10, 11), (12, 12, 13), (13, 13, 14), (14, 14, 15), (100, 0, 4), (101, 1, 5), (102, 2, 6), (103, 3, 7), (104, 4, 8), (105, 5, 9), (106, 6, 10), (107, 7, 11), (108, 8, 12), (109, 9, 13), (110, 10, 14), (111, 11, 15)]
+    [(0, [0, 1, 5, 4]), (1, [1, 2, 6, 5]), (2, [2, 3, 7, 6]), (4, [4, 5, 9, 8]), (6, [6, 7, 11, 10]), (8, [8, 9, 13, 12]), (9, [9, 10, 14, 13]), (10, [10, 11, 15, 14])]
+
+/-- known finding D27, machine-checked: in the consistent mesh `holeLattice` the two-point interface `6 – 5` on the
+    rim of the hole joins two junctions of three cells, is classified internal by all three copies of the predicate,
+    and its `own_cells` is the single cell 1 — not two cells -/
+theorem ownCells_two_point_three_cells_witness :
+    holeLattice.Consistent = true ∧
+    holeLattice.bigEdgesList[5]? = some [6, 5] ∧
+    5 ∈ holeLattice.internalIdx holeLattice.bigEdgesList ∧
+    holeLattice.bigEdgeExternal [6, 5] = false ∧
+    (holeLattice.ownCells 6).length = 3 ∧ (holeLattice.ownCells 5).length = 3 ∧
+    holeLattice.bigEdgeOwnCells [6, 5] = [1] ∧
+    (holeLattice.bigEdgeOwnCells [6, 5]).length ≠ 2 := by decide +kernel
 
 /-! non-vacuity: a hexagon-like cycle with junctions 10, 20, 30 -/
 example : cellPaths (fun v => decide (v ≥ 10)) [1, 2, 10, 3, 4, 20, 5, 30, 6]
